@@ -75,6 +75,7 @@ type uScript struct {
 	Settle  int       `json:"settle"`
 	Both    bool      `json:"both"` // C13: run twice (fresh buffers / reused and scribbled buffers) and compare emissions
 	NoWire  bool      `json:"nowire"` // C12: do not log packets reaching the transport side (long runs)
+	Strict  bool      `json:"strict"` // C11: goroutine census 2 ms after Close returned, without the usual grace period
 }
 
 var errUInner = errors.New("verif: injected transport failure")
@@ -147,7 +148,9 @@ type uEnv struct {
 	nextRC  []byte
 	pacing  *pacing.InterceptorFactory
 	nowire   bool
+	nActivity    int  // pacer updates / rate callbacks seen so far
 	failInjected bool // the transport-side RTCP writer fails every write the chain originates
+	failStreams  map[uint32]bool // local streams whose transport-side RTP writer always fails
 	statsGetter stats.Getter
 	okW, okR    map[uint32]int // successful application writes / reads per SSRC
 	quiet    bool  // collect emissions only, log nothing
@@ -194,6 +197,34 @@ func uEmis(kind string, h *rtp.Header, pl []byte, keepSeq bool) vfM {
 	}
 
 	return r
+}
+
+// uSlowPacer keeps the estimator's pipeline goroutine busy for a while whenever the target bitrate changes.
+type uSlowPacer struct {
+	*gcc.NoOpPacer
+	e *uEnv
+}
+
+func (p *uSlowPacer) SetTargetBitrate(r int) {
+	time.Sleep(15 * time.Millisecond)
+	p.e.lateActivity("pacer")
+	p.NoOpPacer.SetTargetBitrate(r)
+}
+
+// lateActivity records activity of a goroutine the chain started; after Close has returned there must be none
+func (e *uEnv) lateActivity(what string) {
+	e.mu.Lock()
+	defer e.mu.Unlock()
+	e.nActivity++
+	if e.closed && !e.quiet && !e.nowire {
+		e.out.Emit(vfM{"a": "wire", "t": what, "s": 0, "app": false, "failed": false, "closed": true, "pkt": vfM{}, "sum": []vfM{}})
+	}
+}
+
+func (e *uEnv) dumpRTPText(pkt *rtp.Packet, _ interceptor.Attributes) string {
+	_, _ = e.dumpRTP(pkt, nil)
+
+	return ""
 }
 
 func (e *uEnv) dumpRTP(pkt *rtp.Packet, _ interceptor.Attributes) ([]byte, error) {
@@ -269,11 +300,30 @@ func (e *uEnv) factory(m uMember) (interceptor.Factory, error) { //nolint:cyclop
 
 		return f, err
 	case "pdrecv":
+		if uOpt(m, "text", 0) != 0 { // text formatter only (no binary formatter configured)
+			return packetdump.NewReceiverInterceptor(packetdump.RTPWriter(e.dump), packetdump.RTCPWriter(e.dump),
+				packetdump.RTPFormatter(e.dumpRTPText))
+		}
+
 		return packetdump.NewReceiverInterceptor(packetdump.RTPWriter(e.dump), packetdump.RTCPWriter(e.dump),
 			packetdump.RTPBinaryFormatter(e.dumpRTP))
 	case "pdsend":
+		if uOpt(m, "text", 0) != 0 {
+			return packetdump.NewSenderInterceptor(packetdump.RTPWriter(e.dump), packetdump.RTCPWriter(e.dump),
+				packetdump.RTPFormatter(e.dumpRTPText))
+		}
+
 		return packetdump.NewSenderInterceptor(packetdump.RTPWriter(e.dump), packetdump.RTCPWriter(e.dump),
 			packetdump.RTPBinaryFormatter(e.dumpRTP))
+	case "ccslow": // cc interceptor whose pacer takes its time in SetTargetBitrate and that reports rate changes
+		return cc.NewInterceptor(func() (cc.BandwidthEstimator, error) {
+			bwe, err := gcc.NewSendSideBWE(gcc.SendSideBWEPacer(&uSlowPacer{NoOpPacer: gcc.NewNoOpPacer(), e: e}))
+			if err == nil {
+				bwe.OnTargetBitrateChange(func(rate int) { e.lateActivity("callback") })
+			}
+
+			return bwe, err
+		})
 	case "pli":
 		return intervalpli.NewReceiverInterceptor(intervalpli.GeneratorInterval(ivl))
 	case "flexfec":
@@ -381,6 +431,9 @@ func (e *uEnv) wireRTP(s uint32) interceptor.RTPWriter {
 	return interceptor.RTPWriterFunc(func(h *rtp.Header, pl []byte, _ interceptor.Attributes) (int, error) {
 		e.mu.Lock()
 		defer e.mu.Unlock()
+		if e.failStreams[s] { // this stream's transport is gone: every write fails
+			return 0, errUInner
+		}
 		fl := e.inflight[h]
 		app := fl != nil
 		var rec vfM
@@ -584,7 +637,7 @@ func uInfo(st *uStep) *interceptor.StreamInfo {
 func uRun(t *testing.T, sc *uScript, out *vfWriter, scribble, quiet bool) []vfM { //nolint:gocognit,cyclop,maintidx
 	t.Helper()
 	e := &uEnv{t: t, out: out, dump: &uSyncBuf{}, nextRTP: map[uint32][]byte{}, scribble: scribble, quiet: quiet, nowire: sc.NoWire,
-		okW: map[uint32]int{}, okR: map[uint32]int{}, inflight: map[*rtp.Header]*uFlight{}}
+		okW: map[uint32]int{}, okR: map[uint32]int{}, inflight: map[*rtp.Header]*uFlight{}, failStreams: map[uint32]bool{}}
 	kinds := []string{}
 	reg := &interceptor.Registry{}
 	for _, m := range sc.Members {
@@ -662,6 +715,11 @@ func uRun(t *testing.T, sc *uScript, out *vfWriter, scribble, quiet bool) []vfM 
 		case "bindl":
 			b := &uBound{info: uInfo(st)}
 			ev["twcc"], ev["rtx"], ev["fec"], ev["nack"] = st.Twcc, st.Rtx, st.Fec, st.Nack
+			if st.Fail { // (bindl with fail: the stream's transport-side writer always returns an error)
+				e.mu.Lock()
+				e.failStreams[st.S] = true
+				e.mu.Unlock()
+			}
 			blocked, pan = uGuard(limit, func() { b.writer = chain.BindLocalStream(b.info, e.wireRTP(st.S)) })
 			smu.Lock()
 			local[st.S] = b
@@ -803,6 +861,12 @@ func uRun(t *testing.T, sc *uScript, out *vfWriter, scribble, quiet bool) []vfM 
 					pairs = append(pairs, rtcp.NackPair{PacketID: n})
 				}
 				pkts = []rtcp.Packet{&rtcp.TransportLayerNack{SenderSSRC: 7, MediaSSRC: st.S, Nacks: pairs}}
+			case "xr", "xr2": // extended report with one / two receiver reference time blocks
+				reps := []rtcp.ReportBlock{&rtcp.ReceiverReferenceTimeReportBlock{NTPTimestamp: uint64(st.ID+1) << 32}} //nolint:gosec
+				if st.Kind == "xr2" {
+					reps = append(reps, &rtcp.ReceiverReferenceTimeReportBlock{NTPTimestamp: uint64(st.ID+1)<<32 + 7}) //nolint:gosec
+				}
+				pkts = []rtcp.Packet{&rtcp.ExtendedReport{SenderSSRC: st.S, Reports: reps}}
 			default:
 				pkts = []rtcp.Packet{&rtcp.PictureLossIndication{SenderSSRC: 7, MediaSSRC: st.S}}
 			}
@@ -957,6 +1021,43 @@ func uRun(t *testing.T, sc *uScript, out *vfWriter, scribble, quiet bool) []vfM 
 			e.mu.Lock()
 			ev["nums"] = []int{e.okW[st.S], e.okR[st.S]}
 			e.mu.Unlock()
+		case "statssync": // C10: wait until the (asynchronously started) statistics recorders are active, then take the baseline
+			if e.statsGetter == nil {
+				ev["skipped"] = true
+
+				break
+			}
+			for _, s16 := range st.Nums {
+				ssrc := uint32(s16)
+				deadline := time.Now().Add(5 * time.Second)
+				for time.Now().Before(deadline) {
+					if b := getLocal(ssrc); b != nil && b.writer != nil {
+						h, pl := vfMakePacket(ssrc, 60000, 1, 4, 0)
+						_, _ = b.writer.Write(h, pl, interceptor.Attributes{})
+					}
+					if b := getRemote(ssrc); b != nil && b.reader != nil {
+						h, pl := vfMakePacket(ssrc, 60000, 1, 4, 0)
+						raw, _ := (&rtp.Packet{Header: *h, Payload: pl}).Marshal()
+						e.mu.Lock()
+						e.nextRTP[ssrc] = raw
+						e.mu.Unlock()
+						_, _, _ = b.reader.Read(make([]byte, 1500), interceptor.Attributes{})
+					}
+					g := e.statsGetter.Get(ssrc)
+					okL := getLocal(ssrc) == nil || (g != nil && g.OutboundRTPStreamStats.PacketsSent > 0)
+					okR := getRemote(ssrc) == nil || (g != nil && g.InboundRTPStreamStats.PacketsReceived > 0)
+					if okL && okR {
+						break
+					}
+					time.Sleep(time.Millisecond)
+				}
+				if g := e.statsGetter.Get(ssrc); g != nil {
+					e.mu.Lock()
+					e.okW[ssrc] = int(g.OutboundRTPStreamStats.PacketsSent)     //nolint:gosec
+					e.okR[ssrc] = int(g.InboundRTPStreamStats.PacketsReceived) //nolint:gosec
+					e.mu.Unlock()
+				}
+			}
 		case "heap": // C12: live heap after forced collection
 			time.Sleep(time.Duration(st.Ms) * time.Millisecond)
 			if st.Kind == "final" { // the application drops the closed interceptor: everything it held must become collectable
@@ -1105,9 +1206,16 @@ func uRun(t *testing.T, sc *uScript, out *vfWriter, scribble, quiet bool) []vfM 
 		"probes": probes, "errs": []int{}, "leaked": 0, "stack": "", "aborted": aborted}
 	e.mu.Lock()
 	closed := e.closed
+	end["activity"] = e.nActivity
 	e.mu.Unlock()
 	if closed && !aborted {
-		n, first := uLeaked(baseLeak)
+		var n int
+		var first string
+		if sc.Strict {
+			n, first = uLeakedN(baseLeak, 1)
+		} else {
+			n, first = uLeaked(baseLeak)
+		}
 		end["leaked"], end["stack"] = n, first
 	} else if !aborted {
 		if chain != nil {
